@@ -194,6 +194,14 @@ def run_autoverify(ctx):
             return FakeTime.now
     real_time = upd.time
     upd.time = FakeTime
+    real_get = upd.QueryWalker.get
+    batch = []
+
+    def rec_get(self_, k_):
+        out = real_get(self_, k_)
+        batch.append([c.id for c in out])
+        return out
+    upd.QueryWalker.get = rec_get
     try:
         with envmod.Env() as e:
             root = e.root("n")
@@ -223,15 +231,25 @@ def run_autoverify(ctx):
                 for rep in range(2):
                     before = {c.id: c.has_file for c in ArchiveFileCopy.select()}
                     table = sorted(i for i, h in before.items() if h != "N")
+                    del batch[:]
                     un.run_auto_verify() if un._av_walker is not None or True else None
                     after = {c.id: c.has_file for c in ArchiveFileCopy.select()}
                     flipped = sorted(i for i in after if after[i] == "M" and before[i] != "M")
+                    # every copy the walker handed out that is older than the minimum age is re-queued, wherever it stands in
+                    # the batch (the walker has moved past it: it would not be looked at again for a whole cycle)
+                    for b_ in batch:
+                        want = sorted(set(i for i in b_ if now - lus[i] > 86400 * min_days and before.get(i) != "M"))
+                        if want != flipped:
+                            ctx.violation(f"selected-not-requeued:k={k}", f"auto-verify handed out the batch {b_} (ages in days "
+                                          f"{[round((now - lus[i]) / 86400, 2) for i in b_]}, minimum {min_days}); copies {want} are old "
+                                          f"enough to be re-queued, but {flipped} were", {"kind": "avbatch", "batch": b_, "min_days": min_days})
                     # the cursor the call used: reconstruct from the walker (cursor after) is not enough; record via model below
                     metas.append((table, k, now, min_days, dict(lus), before, flipped, un._av_walker._id if un._av_walker else None))
                     for i in flipped:
                         lus[i] = now   # last_update refreshed
     finally:
         upd.time = real_time
+        upd.QueryWalker.get = real_get
     # model: the batch is whatever ids the walker returned; we do not know the random start, so we check the
     # filter for every possible batch member: flipped == {i in batch | old enough}; batch ⊆ table, |batch| = k.
     for (table, k, now, md, lus, before, flipped, cur) in metas:
@@ -387,4 +405,5 @@ def replay(ctx, path):
             exp = ref_get(r["table"], r["cursor"], r["k"])
             print("real:", got, "cursor", w._id, "expected:", exp)
             return 0 if got == exp else 1
-    return 1
+    import sys
+    return common.replay_by_rerun(ctx, path, sys.modules[__name__])
